@@ -4,6 +4,8 @@ import Asn1cModel.Impl.Enber
 /-
   C20 ops (all texts are passed as hex of their bytes; `-` = empty):
     unber <hex input>        → `<status> <hex text>`   status = ok | fail:<diag> | oob | assertion | nofuel
+    unber_st <hex input>     → `<status> <number of print events>` (no text: for deeply nested input, whose text is quadratic)
+    unber_maxlevel           → the model's `UNBER_MAX_NESTING_LEVEL`
     enber <hex text>         → `ok <hex octets>` | `err:<diag> <hex octets>`
     enber_unber <hex input>  → enber applied to the text of unber (model only composition)
     tagfetch <hex> / lenfetch <0|1> <hex> : the TL primitives on a buffer with size = length
@@ -14,7 +16,7 @@ open Asn1c Driver Asn1c.Impl.Unber Asn1c.Impl.Enber Asn1c.Impl.UnberTlv
 def errName : Err → String
   | .tooLongLimit => "tooLongLimit" | .tooLongBuf => "tooLongBuf" | .eofTL => "eofTL"
   | .badTag => "badTag" | .badLen => "badLen" | .tlMismatch => "tlMismatch"
-  | .lenExceeds => "lenExceeds" | .eofV => "eofV"
+  | .lenExceeds => "lenExceeds" | .eofV => "eofV" | .tooDeep => "tooDeep"
 
 def statusName : Status → String
   | .ok => "ok" | .failed e => "fail:" ++ errName e | .oob => "oob" | .assertion => "assertion"
@@ -41,6 +43,10 @@ def run : Handler
   | ["unber", h] => some <| match parseHex h with
       | some bs => let (s, t) := unber bs; s!"{statusName s} {toHex t}"
       | none => bad
+  | ["unber_st", h] => some <| match parseHex h with
+      | some bs => let (s, o) := unberOuts bs; s!"{statusName s} {o.length}"
+      | none => bad
+  | ["unber_maxlevel"] => some s!"{maxLevel}"
   | ["enber", h] => some <| match parseHex h with
       | some t => showLineRes (enber t)
       | none => bad
